@@ -41,7 +41,13 @@ func (s *regService) build() *restful.WebService {
 
 func addRegRoute(ws *restful.WebService, root, p string) {
 	tag := "ws:" + root + ":" + p
-	ws.Route(ws.GET(p).To(func(req *restful.Request, resp *restful.Response) { resp.Write([]byte(tag)) }))
+	// the condition is user code running during route selection: it panics when asked to
+	ws.Route(ws.GET(p).If(func(r *http.Request) bool {
+		if r.Header.Get("X-Boom") != "" {
+			panic("boom in condition")
+		}
+		return true
+	}).To(func(req *restful.Request, resp *restful.Response) { resp.Write([]byte(tag)) }))
 }
 
 func regHandler(p string) http.Handler {
